@@ -249,6 +249,35 @@ func (e *Engine) mergeVal(g string, a, b Val, sa, sb *State, what string) Val {
 			}
 			return AddrV{Cell: x.Cell, Path: x.Path, Nil: ite(g, nx, ny)}
 		}
+		// the addresses of two different local variables of one type (`p = &a` in one branch, `p = &b` in the other,
+		// both locals referenced from nowhere else): one new variable holding the conditional of their contents
+		if y, ok := b.(AddrV); ok && x.Cell != y.Cell && len(x.Path) == 0 && len(y.Path) == 0 && e.cfg.Effects && e.mergeOut != nil && x.Cell.Typ != nil && y.Cell.Typ != nil && types.Identical(x.Cell.Typ, y.Cell.Typ) {
+			ca, oka := sa.cells[x.Cell]
+			cb, okb := sb.cells[y.Cell]
+			if !oka {
+				ca, oka = e.inputCells[x.Cell]
+			}
+			if !okb {
+				cb, okb = e.inputCells[y.Cell]
+			}
+			if oka && okb {
+				e.freshMerges++
+				c := e.newCell(x.Cell.Typ, x.Cell.Name+"|"+y.Cell.Name)
+				e.mergeOut.cells[c] = e.mergeVal(g, ca, cb, sa, sb, what)
+				nx, ny := x.Nil, y.Nil
+				out := AddrV{Cell: c}
+				if nx != "" || ny != "" {
+					if nx == "" {
+						nx = "false"
+					}
+					if ny == "" {
+						ny = "false"
+					}
+					out.Nil = ite(g, nx, ny)
+				}
+				return out
+			}
+		}
 		// the address of a variable or field merged with a nil pointer (`return &x.f, nil` / `return nil, err`)
 		if isNilPtrVal(b) {
 			nx := x.Nil
@@ -358,6 +387,13 @@ func (e *Engine) mergeVal(g string, a, b Val, sa, sb *State, what string) Val {
 			return OpaqueV{ite(g, e.fresh("fn", "U"), y.T)}
 		}
 	case OpaqueV:
+		if y, ok := b.(AddrV); ok && x.T == "nilU" {
+			ny := y.Nil
+			if ny == "" {
+				ny = "false"
+			}
+			return AddrV{Cell: y.Cell, Path: y.Path, Nil: ite(g, "true", ny)}
+		}
 		if y, ok := b.(FuncV); ok && x.T == "nilU" {
 			ny := y.Nil
 			if ny == "" {
